@@ -69,6 +69,10 @@ func (w *world) genRichTree(maxItems int, multiChunk bool, withXattr bool) *simf
 		nd.MTime = oddTimes[tp.Choose(len(oddTimes))]
 		nd.UID = []uint32{0, 1000, 65534}[tp.Choose(3)]
 		nd.GID = []uint32{0, 1000, 65534}[tp.Choose(3)]
+		// names as recorded by the machine that made the backup; a repository fed by several hosts may
+		// hold different names for one numeric ID
+		nd.User = []string{"", "root", "alice", "bob"}[tp.Choose(4)]
+		nd.Group = []string{"", "root", "wheel", "staff"}[tp.Choose(4)]
 		if withXattr && tp.Choose(4) == 0 && nd.Mode&os.ModeSymlink == 0 && nd.Mode&os.ModeType&^os.ModeDir == 0 {
 			val := make([]byte, tp.Choose(40))
 			w.st.Fill(val)
